@@ -9,6 +9,8 @@ only = sys.argv[1:]
 rows = []
 for d in sorted(glob.glob(ROOT + '/seeded/*/')):
   name = os.path.basename(d.rstrip('/'))
+  if name.startswith('_'):
+    continue            # _brief/: the instructions the sub-agents were given
   if only and not any(name.startswith(o) for o in only):
     continue
   meta = json.load(open(d + 'meta.json'))
